@@ -43,6 +43,118 @@ pub fn collect_lits(m: &Meta) -> (Vec<String>, Vec<String>) {
     (c.strs, c.floats)
 }
 
+/// verdict of an external (syn) grammar parser on a string, as printed tokens
+pub fn parse_kind(kind: &str, s: &str) -> Option<String> {
+    use crate::ser::toks;
+    macro_rules! p {
+        ($t:ty) => {
+            syn::parse_str::<$t>(s).ok().map(|v| toks(&v))
+        };
+    }
+    match kind {
+        "Expr" => p!(syn::Expr),
+        "Path" => p!(syn::Path),
+        "Ident" => syn::parse_str::<syn::Ident>(s).ok().map(|v| v.to_string()),
+        "ExprArray" => p!(syn::ExprArray),
+        "ExprPath" => p!(syn::ExprPath),
+        "ExprRange" => p!(syn::ExprRange),
+        "Type" => p!(syn::Type),
+        "TypeArray" => p!(syn::TypeArray),
+        "TypeBareFn" => p!(syn::TypeBareFn),
+        "TypeGroup" => p!(syn::TypeGroup),
+        "TypeImplTrait" => p!(syn::TypeImplTrait),
+        "TypeInfer" => p!(syn::TypeInfer),
+        "TypeMacro" => p!(syn::TypeMacro),
+        "TypeNever" => p!(syn::TypeNever),
+        "TypeParam" => p!(syn::TypeParam),
+        "TypeParen" => p!(syn::TypeParen),
+        "TypePath" => p!(syn::TypePath),
+        "TypePtr" => p!(syn::TypePtr),
+        "TypeReference" => p!(syn::TypeReference),
+        "TypeSlice" => p!(syn::TypeSlice),
+        "TypeTraitObject" => p!(syn::TypeTraitObject),
+        "TypeTuple" => p!(syn::TypeTuple),
+        "Visibility" => p!(syn::Visibility),
+        "WhereClause" => p!(syn::WhereClause),
+        "WherePreds" => syn::parse_str::<syn::WhereClause>(s)
+            .ok()
+            .map(|c| crate::vals::where_preds_toks(&c.predicates.into_iter().collect::<Vec<_>>())),
+        "PunctPathComma" => {
+            use syn::parse::Parser;
+            syn::punctuated::Punctuated::<syn::Path, syn::Token![,]>::parse_terminated
+                .parse_str(s)
+                .ok()
+                .map(|v| toks(&v))
+        }
+        _ => None,
+    }
+}
+
+struct StrLitCollector {
+    lits: Vec<syn::LitStr>,
+}
+impl<'ast> Visit<'ast> for StrLitCollector {
+    fn visit_lit_str(&mut self, l: &'ast syn::LitStr) {
+        self.lits.push(l.clone());
+    }
+}
+
+fn collect_str_lits(m: &Meta, out: &mut Vec<syn::LitStr>) {
+    let mut c = StrLitCollector { lits: vec![] };
+    c.visit_meta(m);
+    out.extend(c.lits);
+    if let Meta::List(l) = m {
+        if let Ok(items) = darling_core::ast::NestedMeta::parse_meta_list(l.tokens.clone()) {
+            for it in &items {
+                match it {
+                    darling_core::ast::NestedMeta::Meta(inner) => collect_str_lits(inner, out),
+                    darling_core::ast::NestedMeta::Lit(syn::Lit::Str(s)) => out.push(s.clone()),
+                    _ => {}
+                }
+            }
+        }
+    }
+}
+
+pub fn oracle_with(m: &Meta, kinds: &[&'static str]) -> Sx {
+    let mut rows = match oracle_for(m) {
+        Sx::List(mut v) => {
+            v.remove(0);
+            v
+        }
+        _ => vec![],
+    };
+    if !kinds.is_empty() {
+        let mut lits = vec![];
+        collect_str_lits(m, &mut lits);
+        let mut seen = std::collections::HashSet::new();
+        for l in &lits {
+            let s = l.value();
+            if !seen.insert(s.clone()) {
+                continue;
+            }
+            for k in kinds {
+                match *k {
+                    "Arr" => {
+                        let r = l.parse::<syn::ExprArray>().ok().map(|a| ser::expr(&syn::Expr::Array(a))).unwrap_or_else(none);
+                        rows.push(tagged("arr", vec![st(s.clone()), r]));
+                    }
+                    "WherePreds" => {
+                        let input = format!("where {}", s);
+                        let r = parse_kind(k, &input).map(st).unwrap_or_else(none);
+                        rows.push(tagged("syn", vec![st(*k), st(input), r]));
+                    }
+                    _ => {
+                        let r = parse_kind(k, &s).map(st).unwrap_or_else(none);
+                        rows.push(tagged("syn", vec![st(*k), st(s.clone()), r]));
+                    }
+                }
+            }
+        }
+    }
+    tagged("oracle", rows)
+}
+
 pub fn oracle_for(m: &Meta) -> Sx {
     let (strs, floats) = collect_lits(m);
     let mut rows = vec![];
@@ -60,7 +172,7 @@ pub fn oracle_for(m: &Meta) -> Sx {
 }
 
 pub fn meta_case(te: &TyEntry, m: &Meta) -> (Sx, String) {
-    let case = tagged("fm", vec![te.ty.clone(), tagged("meta", vec![ser::meta(m)]), oracle_for(m)]);
+    let case = tagged("fm", vec![te.ty.clone(), tagged("meta", vec![ser::meta(m)]), oracle_with(m, &te.kinds)]);
     (case, (te.meta)(m))
 }
 
@@ -303,6 +415,29 @@ pub fn run_c11(seed: u64, n: usize, out: &mut Out, exhaustive: Option<i64>) {
         out.case_id("fm", &format!("c11-{}", id.get()), &case, &ans);
         id.set(id.get() + 1);
     }
+    // 5. floats: decimals next to the midpoint of two adjacent f32 values (where rounding twice,
+    //    or through a wider type, differs from `str::parse::<f32>`), and of two adjacent f64 values
+    let f32e = scalars.iter().find(|t| t.ty.render() == "(float 32)").unwrap().clone();
+    let f64e = scalars.iter().find(|t| t.ty.render() == "(float 64)").unwrap().clone();
+    for i in 0..(n / 8).max(50) {
+        let mut r = base.fork(900_000 + i as u64);
+        let exp = r.range(100, 160) as u32; // moderate magnitudes: exact decimal expansions stay short
+        let bits = (exp << 23) | (r.next() as u32 & 0x7f_ffff);
+        let a = f32::from_bits(bits);
+        let b = f32::from_bits(bits + 1);
+        let mid = (a as f64 + b as f64) / 2.0;
+        let exact = format!("{:.80}", mid);
+        let exact = exact.trim_end_matches('0').to_string();
+        let exact = if exact.ends_with('.') { format!("{}0", exact) } else { exact };
+        let above = format!("{}0000000001", exact);
+        for sp in [exact.clone(), above.clone()] {
+            for te in [&f32e, &f64e] {
+                emit(out, te, &format!("x = \"{}\"", sp));
+                emit(out, te, &format!("x = {}", sp));
+            }
+        }
+        out.stat("float_midpoint_probes", 1);
+    }
     out.stat("generator_inputs_not_parseable_as_meta", skipped.get());
     out.stat("usize_bits", usize::BITS as u64);
 }
@@ -442,4 +577,136 @@ pub fn run_c15b(seed: u64, n: usize, out: &mut Out) {
         }
     }
     FAILING.with(|f| f.set(false));
+}
+
+// ---------------------------------------------------------------- C13
+
+pub const SYN_VALUES: &[&str] = &[
+    // paths / identifiers
+    "a", "a::b", "::a::b", "a::b::<u8>", "Vec<u8>", "<T as X>::y", "<T>::x", "foo", "r#type", "self", "fn", "crate::x", "Self",
+    // expressions
+    "1 + 2", "f(x)", "|a| a + 1", "{ 1 }", "[1, 2, 3]", "[a, \"b\"]", "0..5", "..", "a..=b", "(1)", "x.y", "-1", "'c'", "1.0", "5",
+    "true", "m!(x)", "&x", "x as u8", "if a { b } else { c }", "a = b", "[1, 2, 3,]", "[[1], [2]]",
+    // types
+    "u8", "[u8; 4]", "fn(u8) -> u8", "impl Clone", "_", "!", "(u8)", "a::B", "*const u8", "&'a u8", "[u8]", "dyn Tr + Send",
+    "(u8, u16)", "T: Clone", "T",
+    // visibility, where
+    "pub", "pub(crate)", "pub(in a::b)", "T: Clone, U: Copy", "where T: X", "T: 'a + Clone, 'a: 'b",
+    // arrays of literals
+    "[1u8, 300]", "[\"a\", \"b\"]", "[b'a']", "[true, false]", "[1.0, 2.0]", "[1, x]", "[]", "[b\"x\"]", "['a', 'b']", "[1, -2]",
+    "[256]", "[70000]", "[\"1\", \"2\"]",
+    // rename rules and junk
+    "snake_case", "camelCase", "PascalCase", "SCREAMING_SNAKE_CASE", "kebab-case", "lowercase", "Title Case", "", " ", "a b", "a,",
+    "a::b, c", "a, b::c,",
+];
+
+pub const LIT_SPELLINGS: &[&str] = &["5", "5u8", "0x1f", "1.5", "1e3f32", "\"s\"", "r\"raw\"", "b'x'", "b\"bs\"", "'c'", "true", "false", "c\"cs\""];
+
+pub fn run_c13(seed: u64, n: usize, out: &mut Out) {
+    let base = Rng::new(seed ^ 0xC13);
+    let tys = syn_types();
+    let mut srcs: Vec<String> = vec!["x".into(), "x()".into(), "x(a, b::c)".into(), "x(a, \"s\")".into(), "x(a = 1)".into(), "x(::a, r#b)".into()];
+    for v in SYN_VALUES {
+        srcs.push(format!("x = {}", v));
+        srcs.push(format!("x = \"{}\"", v.replace('\\', "\\\\").replace('"', "\\\"")));
+        srcs.push(format!("x({})", v));
+    }
+    for l in LIT_SPELLINGS {
+        srcs.push(format!("x = {}", l));
+        srcs.push(format!("x({}, {})", l, l));
+    }
+    let mut metas: Vec<Meta> = vec![];
+    for s in &srcs {
+        if let Some(m) = parse_meta(s) {
+            metas.push(group_value(&m, 1));
+            metas.push(m);
+        }
+    }
+    out.stat("syntax_typed_targets", tys.len() as u64);
+    out.stat("item_forms", metas.len() as u64);
+    let total = tys.len() * metas.len();
+    let exhaustive = n >= total;
+    let mut id = 0usize;
+    for (k, te) in tys.iter().enumerate() {
+        let mut r = base.fork(k as u64);
+        let cnt = if exhaustive { metas.len() } else { (n / tys.len()).max(1) };
+        for j in 0..cnt {
+            let m = if exhaustive { &metas[j] } else { r.pick(&metas) };
+            let (case, ans) = meta_case(te, m);
+            out.stat(if ans.starts_with("(ok") { "answers_ok" } else if ans.starts_with("(err") { "answers_err" } else { "answers_panic" }, 1);
+            out.case_id("fm", &format!("c13-{}", id), &case, &ans);
+            id += 1;
+        }
+        let (case, ans) = none_case(te);
+        out.case_id("fm", &format!("c13-{}", id), &case, &ans);
+        id += 1;
+    }
+}
+
+// ---------------------------------------------------------------- C14
+
+const KEYS: &[&str] = &["a", "b", "c", "a::b", "::a", "r#a", "b::c", "a::<u8>", "a :: b", "d"];
+const MAP_VALUES: &[&str] = &[" = true", " = 5", " = \"s\"", "", "(x = 1)", " = 1 + 2", " = 300", " = \"true\"", "(y = 5, z = 300)", " = false"];
+
+pub fn run_c14(seed: u64, n: usize, out: &mut Out) {
+    let base = Rng::new(seed ^ 0xC14);
+    let tys = map_types();
+    out.stat("map_types", tys.len() as u64);
+    let mut id = 0usize;
+    let per = (n / tys.len()).max(1);
+    for (k, te) in tys.iter().enumerate() {
+        for j in 0..per {
+            let mut r = base.fork((k * 1_000_003 + j) as u64);
+            let len = r.below(13);
+            // repetition pattern: small key pool most of the time
+            let pool = r.range(1, KEYS.len());
+            let mut items = vec![];
+            // half of the lists are built to be valid for this map type (distinct keys the key
+            // type accepts, values the value type accepts) with at most one injected mistake
+            let valid_mode = r.chance(1, 2);
+            if valid_mode {
+                let tyr = te.ty.render();
+                let vals: &[&str] = if tyr.ends_with("bool)") { &[" = true", "", " = false", " = \"true\""] }
+                    else if tyr.contains("(option") { &[" = 5", " = \"7\""] }
+                    else if tyr.ends_with("(int \"u8\")))") { &["(y = 5)", "(y = 5, z = 6)", "()"] }
+                    else if tyr.ends_with("(int \"u8\"))") { &[" = 5", " = \"7\"", " = 255"] }
+                    else if tyr.ends_with("string)") { &[" = \"s\"", " = \"\""] }
+                    else { &[" = 1 + 2", " = 5", " = \"a + b\"", " = f(x)"] };
+                let keys: &[&str] = if tyr.contains("syn::Ident") { &["a", "b", "c", "d", "r#a", "e", "f", "g", "h", "i", "j", "k", "l"] } else { &["a", "b", "c", "a::b", "::a", "r#a", "b::c", "d", "e", "f", "g", "h", "i"] };
+                let mut ks: Vec<&str> = keys.to_vec();
+                r.shuffle(&mut ks);
+                for k in ks.iter().take(len) {
+                    items.push(format!("{}{}", k, r.pick(vals)));
+                }
+                if len > 0 && r.chance(1, 4) {
+                    let pos = r.below(len);
+                    match r.below(4) {
+                        0 => items[pos] = "\"lit\"".to_string(),
+                        1 => { let dup = items[r.below(len)].clone(); items.insert(pos, dup); }
+                        2 => items[pos] = format!("{} = b\"bad\"", ks[pos]),
+                        _ => items[pos] = format!("x::y::<u8>{}", r.pick(vals)),
+                    }
+                }
+            }
+            for _ in 0..(if valid_mode { 0 } else { len }) {
+                if r.chance(1, 10) {
+                    items.push((*r.pick(&["\"lit\"", "5", "true"])).to_string());
+                } else {
+                    let key = KEYS[r.below(pool)];
+                    let val = if r.chance(1, 2) { MAP_VALUES[r.below(3)] } else { *r.pick(MAP_VALUES) };
+                    items.push(format!("{}{}", key, val));
+                }
+            }
+            let src = format!("m({})", items.join(", "));
+            if let Some(m) = parse_meta(&src) {
+                let (case, ans) = meta_case(te, &m);
+                out.stat(if ans.starts_with("(ok") { "answers_ok" } else { "answers_err" }, 1);
+                out.stat(&format!("len_{}", len), 1);
+                out.case_id("fm", &format!("c14-{}", id), &case, &ans);
+                id += 1;
+            } else {
+                out.stat("generator_inputs_not_parseable_as_meta", 1);
+            }
+        }
+    }
 }
